@@ -283,6 +283,22 @@ func genMerges(menuName string, b mergeBounds, emit func(enum.MergeCase)) {
 		for l := 1; l <= b.maxLen1; l++ {
 			enum.Product(l, len(menu), func(list []int) {
 				if !inSub(list) {
+					{
+						// quick tier: every triple outside the sub-menu still runs once with nothing
+						// dropped and once with the first document of every input dropped (field-list
+						// combinations such as same / different / same only exist among triples)
+						e := enum.Expr{Drops: make([][]int, len(list)), DropOK: make([]bool, len(list))}
+						e2 := enum.Expr{Drops: make([][]int, len(list)), DropOK: make([]bool, len(list))}
+						for i, x := range list {
+							e.In = append(e.In, enum.L(x, i%2 == 1))
+							e2.In = append(e2.In, enum.L(x, i%2 == 0))
+							if counts[x] > 0 {
+								e2.Drops[i], e2.DropOK[i] = []int{0}, true
+							}
+						}
+						emit(enum.MergeCase{Menu: menuName, Mode: mode, E: e})
+						emit(enum.MergeCase{Menu: menuName, Mode: mode, E: e2})
+					}
 					return
 				}
 				cs := make([]int, len(list))
@@ -410,7 +426,7 @@ func textBounds(tier string) mergeBounds {
 	return mergeBounds{maxLen1: 3, triples: nil, modes: []uint32{1, 2, 1024, 1026}, depth2: true, d2Menu: []int{0, 1, 2, 3, 4, 5, 6, 7, 8, 9}, depth3: true, fullDrops: false}
 }
 
-var mergeRule = "explicit-state exploration of the merge state space on the real code: states = segments reachable from a 10-item segment menu (frequencies / lengths / location values at varint boundaries; a gap between stored fields and seven array-positioned stored values in one document; a frequency-0 term with locations in two documents and a doc-value field without tokens; empty batch; single doc with a single-hit-eligible term; two 2-doc batches with identical field lists (byte-copy paths); overlapping field list with a composite field whose locations name other fields; disjoint field list with long array positions and the empty term; 3-doc batch with a field-less document and an id shared with another item), each input built in memory or persisted+re-opened; transitions = Merge(ordered list of <=3 states, one drop bitmap per input) for EVERY drop vector over {nil, empty, every subset} at depth 1, and {nil, empty, singletons, complements, all} for inputs with >3 documents at depth >= 2; chunk modes as bounded. Depth-1 results are deduplicated by canonical state key (semantic dump + per-term single-hit encoding class + chunk mode) computed from the reference model and cross-checked against the key observed on the implementation; each distinct state is merged again (alone, with menu items on either side) at depth 2 (and once more at depth 3 in thorough). A successor is computed by replaying the whole expression on fresh objects. Plus a 'big' family: merges of 600..1030-document segments (a one-document segment lacking the term; two 700-document segments whose every document has the empty term) whose surviving cardinality of a term crosses 1024 - the boundary of the cardinality-dependent chunk-size rules - through inputs and drops, in both input orders, in memory and re-opened, chunk modes 1024/1025/1026, incl. a second merge of a result sitting at the boundary. Plus a 'pairs' family that reuses the BUILD alphabets as merge inputs: every ordered pair of single-document batches of the 12-entry cell menu over two fields (C06: 144 x 144 pairs; quick: a third of them) resp. of the 9-entry stored-field menu (C05: 81 x 81 pairs) is merged, and for a reduced sub-menu also with re-opened inputs, with either input dropped, and merged a second time with a third document. Non-trivial = merge with >= 1 survivor."
+var mergeRule = "explicit-state exploration of the merge state space on the real code: states = segments reachable from a 10-item segment menu (frequencies / lengths / location values at varint boundaries; a gap between stored fields and seven array-positioned stored values in one document; a frequency-0 term with locations in two documents and a doc-value field without tokens; empty batch; single doc with a single-hit-eligible term; two 2-doc batches with identical field lists (byte-copy paths); overlapping field list with a composite field whose locations name other fields; disjoint field list with long array positions and the empty term; 3-doc batch with a field-less document and an id shared with another item), each input built in memory or persisted+re-opened; transitions = Merge(ordered list of <=3 states, one drop bitmap per input) for EVERY drop vector over {nil, empty, every subset} at depth 1, and {nil, empty, singletons, complements, all} for inputs with >3 documents at depth >= 2; chunk modes as bounded. Depth-1 results are deduplicated by canonical state key (semantic dump + per-term single-hit encoding class + chunk mode) computed from the reference model and cross-checked against the key observed on the implementation; each distinct state is merged again (alone, with menu items on either side) at depth 2 (and once more at depth 3 in thorough). A successor is computed by replaying the whole expression on fresh objects. Plus a 'big' family: merges of 600..1030-document segments (a one-document segment lacking the term; two 700-document segments whose every document has the empty term) whose surviving cardinality of a term crosses 1024 - the boundary of the cardinality-dependent chunk-size rules - through inputs and drops, in both input orders, in memory and re-opened, chunk modes 1024/1025/1026, incl. a second merge of a result sitting at the boundary. Plus a 'pairs' family that reuses the BUILD alphabets as merge inputs: every ordered pair of single-document batches of the 12-entry cell menu over two fields (C06: 144 x 144 pairs; quick: a third of them) resp. of the 9-entry stored-field menu (C05: 81 x 81 pairs) is merged, and for a reduced sub-menu also with re-opened inputs, with either input dropped, and merged a second time with a third document. Plus (C06) a 'cols' family: every 3-document segment whose documents draw one field from the 12-entry cell menu (1727 segments) is merged alone under every non-empty drop vector (chunk mode 1026; mode 2 and re-opened inputs for the reduced menu, for all in thorough), so that a term's hits lose their first, a middle or their last member for every combination of hit shapes. Non-trivial = merge with >= 1 survivor."
 
 func init() {
 	for _, which := range []string{"C05", "C06"} {
@@ -430,6 +446,7 @@ func init() {
 				genBigMerges(tier, func(c enum.MergeCase) { emit(c) })
 				if which == "C06" {
 					genPairMerges("cells1", tier, func(c enum.MergeCase) { emit(c) })
+					genColMerges(tier, func(c enum.MergeCase) { emit(c) })
 				} else {
 					genPairMerges("stored1", tier, func(c enum.MergeCase) { emit(c) })
 				}
@@ -518,6 +535,43 @@ func genBigMerges(tier string, emit func(enum.MergeCase)) {
 			}
 			if tier == "quick" && mode == 1024 {
 				break
+			}
+		}
+	}
+}
+
+// genColMerges: every 3-document segment over the cell menu (cols3) merged alone under
+// EVERY drop vector: a term's hits in one segment (one chunk under mode 1026; chunks of
+// two documents under mode 2) lose their first, a middle or their last member, for every
+// combination of frequency / norm / location shapes of the kept and the skipped hits.
+func genColMerges(tier string, emit func(enum.MergeCase)) {
+	n := len(enum.Menu("cols3"))
+	red := map[int]bool{}
+	for _, c := range enum.ReducedCells {
+		red[c] = true
+	}
+	for i := 0; i < n; i++ {
+		c0, c1, c2 := i/(enum.NumCells*enum.NumCells), i/enum.NumCells%enum.NumCells, i%enum.NumCells
+		if c0 == 0 && c1 == 0 && c2 == 0 {
+			continue
+		}
+		reduced := red[c0] && red[c1] && red[c2]
+		modes := []uint32{1026}
+		if reduced || tier == "thorough" {
+			modes = []uint32{1026, 2}
+		}
+		for _, mode := range modes {
+			for _, opened := range []bool{false, true} {
+				if opened && !(reduced && mode == 1026) && tier == "quick" {
+					continue
+				}
+				enum.ForDrops([]int{3}, true, func(drops [][]int, ok []bool) {
+					if !ok[0] || len(drops[0]) == 0 {
+						return // nothing dropped: the pairs family covers plain copies
+					}
+					emit(enum.MergeCase{Menu: "cols3", Mode: mode, E: enum.Expr{In: []enum.Expr{enum.L(i, opened)},
+						Drops: [][]int{append([]int{}, drops[0]...)}, DropOK: []bool{true}}})
+				})
 			}
 		}
 	}
